@@ -82,7 +82,7 @@ QL = "markdown_it.helpers.parse_link_label.parseLinkLabel"
 CACHE_INV = "forall(p, 0, len(state.src) + 1, implies(p in state.cache, state.cache[p] > p))"
 add(Contract(
     QL, params={"state": "obj:StateInline", "start": "int", "disableNested": "bool"}, result="int", props=["C01", "C20", "C02"],
-    modifies=["state.pos", "state.cache"],
+    modifies=["state.pos", "state.cache", "state.backticks", "state.backticksScanned", "state.delimiters", "state.linkLevel", "state.pendingLevel"],
     requires=[("start", "0 <= start and start <= state.posMax and state.posMax <= len(state.src)"), ("nest", "state.md.options.maxNesting >= 1"), ("cache-inv", CACHE_INV), IL.POSMAX_TERM],
     ensures=[
         ("pos-restored", "state.pos == old(state.pos)", ["C01", "C02"]),
